@@ -389,13 +389,24 @@ class HTTP2Connection(ConnectionInterface):
         return event
 
     def _receive_events(
-        self, request: Request, stream_id: int | None = None
+        self,
+        request: Request,
+        stream_id: int | None = None,
+        flow_stream_id: int | None = None,
     ) -> None:
         """
         Read some data from the network until we see one or more events
         for a given stream ID.
         """
         with self._read_lock:
+            # A request that waits for flow control credit has nothing more
+            # to wait for once its stream has been reset. Another request may
+            # have read that reset while this one was waiting for the lock.
+            if flow_stream_id is not None:
+                for event in self._events.get(flow_stream_id, []):
+                    if isinstance(event, h2.events.StreamReset):
+                        raise RemoteProtocolError(event)
+
             if self._connection_terminated is not None:
                 last_stream_id = self._connection_terminated.last_stream_id
                 if stream_id and last_stream_id and stream_id > last_stream_id:
@@ -587,7 +598,7 @@ class HTTP2Connection(ConnectionInterface):
         max_frame_size: int = self._h2_state.max_outbound_frame_size
         flow = min(local_flow, max_frame_size)
         while flow <= 0:
-            self._receive_events(request)
+            self._receive_events(request, flow_stream_id=stream_id)
             local_flow = self._h2_state.local_flow_control_window(stream_id)
             max_frame_size = self._h2_state.max_outbound_frame_size
             flow = min(local_flow, max_frame_size)
